@@ -196,6 +196,19 @@ type target struct {
 
 // classOf groups table rows into input classes.
 var classOf = map[string]string{
+	"map-of-pointer-to-pointer-to-slice":           "pointer-to-pointer-element",
+	"map-of-pointer-to-pointer-to-int":             "pointer-to-pointer-element",
+	"map-of-pointer-to-pointer-to-struct":          "pointer-to-pointer-element",
+	"slice-of-pointer-to-pointer-to-int":           "pointer-to-pointer-element",
+	"slice-of-pointer-to-pointer-to-slice":         "pointer-to-pointer-element",
+	"prefilled-slice-of-pointer-to-slice":          "prefilled-pointer-element",
+	"prefilled-map-of-pointer-to-slice":            "prefilled-pointer-element",
+	"prefilled-slice-of-pointer-to-int":            "prefilled-pointer-element",
+	"prefilled-map-of-pointer-to-int":              "prefilled-pointer-element",
+	"prefilled-map-of-pointer-to-map":              "prefilled-pointer-element",
+	"field-pointer-to-slice-set":                   "prefilled-pointer-to-container-field",
+	"field-pointer-to-map-set":                     "prefilled-pointer-to-container-field",
+	"field-pointer-to-array-set":                   "prefilled-pointer-to-container-field",
 	"field-recursive-pointer-type":                 "recursive-pointer-type",
 	"map-of-recursive-pointer-type":                "recursive-pointer-type",
 	"recursive-pointer-type-prefilled":             "recursive-pointer-type",
@@ -250,7 +263,6 @@ var classOf = map[string]string{
 	"field-map-of-pointer-to-map":                  "pointer-to-map-element",
 	"map-named-string-keys":                        "named-string-map-key",
 	"map-of-arrays-wrong-length":                   "prefilled-map-of-arrays",
-	"field-pointer-to-array-set":                   "prefilled-pointer-to-array",
 	"config-zero-value":                            "zero-value-config-target",
 	"rebranded-config-zero-value":                  "zero-value-config-target",
 }
@@ -554,6 +566,31 @@ func buildTargets() []target {
 		{label: "slice-of-pointer-to-slice", mk: func() interface{} { return &[]*[]int{} }},
 		{label: "slice-of-pointer-to-array", mk: func() interface{} { return &[]*[3]int{} }},
 		{label: "map-of-pointer-to-pointer-to-struct", mk: func() interface{} { return &map[string]**sV{} }},
+		{label: "map-of-pointer-to-pointer-to-slice", mk: func() interface{} { return &map[string]**[]int{} }},
+		{label: "map-of-pointer-to-pointer-to-int", mk: func() interface{} { return &map[string]**int{} }},
+		{label: "slice-of-pointer-to-pointer-to-int", mk: func() interface{} { return &[]**int{} }},
+		{label: "slice-of-pointer-to-pointer-to-slice", mk: func() interface{} { return &[]**[]int{} }},
+		{label: "prefilled-slice-of-pointer-to-slice", mk: func() interface{} { return &[]*[]int{{1, 2}, nil, {3}} }},
+		{label: "prefilled-map-of-pointer-to-slice", mk: func() interface{} { return &map[string]*[]int{"a": {1, 2}, "v": nil} }},
+		{label: "prefilled-slice-of-pointer-to-int", mk: func() interface{} { return &[]*int{new(int), nil, new(int)} }},
+		{label: "prefilled-map-of-pointer-to-int", mk: func() interface{} { return &map[string]*int{"a": new(int), "v": nil} }},
+		{label: "prefilled-map-of-pointer-to-map", mk: func() interface{} { return &map[string]*map[string]int{"a": {"v": 1}, "v": nil} }},
+		{label: "field-pointer-to-slice-set", mk: func() interface{} {
+			return &struct {
+				A *[]int `config:"a"`
+			}{&[]int{1, 2}}
+		}},
+		{label: "field-pointer-to-map-set", mk: func() interface{} {
+			return &struct {
+				A *map[string]int `config:"a"`
+			}{&map[string]int{"v": 1}}
+		}},
+		{label: "field-pointer-to-pointer-to-struct-set", mk: func() interface{} {
+			p := &sV{1}
+			return &struct {
+				A **sV `config:"a"`
+			}{&p}
+		}},
 
 		// slices and arrays
 		{label: "slice-of-interface", mk: func() interface{} { return &[]interface{}{} }},
